@@ -79,3 +79,23 @@ Fixpoint run_obs (c : cfg) (s : state) (tr : list label) : list Z :=
   end.
 
 Definition run_case (x : cfg * list label) : list Z := run_obs (fst x) (init (fst x)) (snd x).
+
+(* ---- comparison inside Coq: index of the first label after which the model's observation
+   differs from the given one (or at which the model cannot take the label); -1 if none *)
+Fixpoint zlist_eqb (a b : list Z) : bool :=
+  match a, b with
+  | [], [] => true
+  | x :: a', y :: b' => Z.eqb x y && zlist_eqb a' b'
+  | _, _ => false
+  end.
+
+Fixpoint first_diff (c : cfg) (s : state) (tr : list label) (os : list (list Z)) (i : Z) : Z :=
+  match tr, os with
+  | l :: tr', o :: os' =>
+      match step c s l with
+      | Some s' =>
+          if zlist_eqb (obs (length (log s)) s') o then first_diff c s' tr' os' (i + 1) else i
+      | None => i
+      end
+  | _, _ => -1
+  end.
